@@ -294,3 +294,70 @@ func VerifC11Concurrent() {
 	vAssert(after == 5, "and so does a fetch that bypasses the cache")
 	vCover("done")
 }
+
+// VerifC11ConcurrentSets: two SetCursor calls for the same cursor overlap
+// (two clients committing positions of the same cursor, or a retry racing the
+// original) under the exploring scheduler. Whichever of them counts as the most
+// recent one, the cursors stream and the cache must agree on it: after both
+// returned, a fetch answered from the cache and a fetch that has to read the
+// log (cache purged: eviction, leader change, restart) return the same offset,
+// and it is one of the two.
+func VerifC11ConcurrentSets() {
+	vInstallCursorPublish()
+	dir := vTempDir()
+	s := vMkServer(dir)
+	s.metadata = newMetadataAPI(s)
+	s.cursors = newCursorManager(s)
+	a := &apiServer{Server: s}
+	s.api = a
+	s.config.CursorsStream.Partitions = 1
+	p := &partition{
+		Partition:   &proto.Partition{Stream: cursorsStream, Subject: "cur", Id: 0, Replicas: []string{"srv-a"}, Isr: []string{"srv-a"}, Leader: "srv-a", ReplicationFactor: 1},
+		log:         vCursorsLog(dir + "/cursors"),
+		srv:         s,
+		replicas:    map[string]struct{}{"srv-a": {}},
+		isr:         map[string]*replica{"srv-a": {offset: -1}},
+		commitCheck: make(chan struct{}, 1),
+		notify:      make(chan struct{}, 1),
+		consumers:   make(map[string]*groupMember),
+	}
+	st := newStream(cursorsStream, "cur", &proto.StreamConfig{}, vTimeZero(), s.config)
+	st.SetPartition(0, p)
+	s.metadata.streams[cursorsStream] = st
+	ctx := context.Background()
+	vAssert(s.cursors.SetCursor(ctx, "foo", "other", 0, 9) == nil, "SetCursor succeeds")
+	if vChoose(2) == 1 {
+		vAssert(s.cursors.SetCursor(ctx, "foo", "x", 0, 3) == nil, "SetCursor succeeds")
+	}
+	done := make(chan struct{}, 2)
+	var st1, st2 interface{}
+	vSchedExplore(vParam("preemptions", 1))
+	go func() {
+		if stt := s.cursors.SetCursor(ctx, "foo", "x", 0, 5); stt != nil {
+			st1 = stt
+		}
+		done <- struct{}{}
+	}()
+	go func() {
+		if stt := s.cursors.SetCursor(ctx, "foo", "x", 0, 10); stt != nil {
+			st2 = stt
+		}
+		done <- struct{}{}
+	}()
+	<-done
+	<-done
+	vSchedExplore(0)
+	vAssert(st1 == nil, "SetCursor succeeds")
+	vAssert(st2 == nil, "SetCursor succeeds")
+	cached, stt := s.cursors.GetCursor(ctx, "foo", "x", 0)
+	vAssert(stt == nil, "FetchCursor succeeds")
+	vAssert(cached == 5 || cached == 10, "after two overlapping sets FetchCursor returns one of the two offsets")
+	s.cursors.BecomePartitionLeader() // the cache is purged: the next fetch reads the log
+	logged, stt := s.cursors.GetCursor(ctx, "foo", "x", 0)
+	vAssert(stt == nil, "FetchCursor succeeds")
+	vAssert(logged == cached, "the cache and the cursors stream agree on which of two overlapping sets was the most recent")
+	if cached == 5 {
+		vCover("second-setter-first")
+	}
+	vCover("done")
+}
